@@ -207,3 +207,44 @@ Theorem C17_flat_add_never_reuses_an_id :
   (fl_recs st' = fl_recs st \/ fl_recs st' = fl_recs st ++ [(fl_next st, s)]).
 Proof. exact C17_flat_add_never_reuses_an_id_l. Qed.
 Print Assumptions C17_flat_add_never_reuses_an_id.
+
+(* FlatfileMapping.remove(id), in place: with unique ids (what add() maintains)
+   the single dashed-out id is one kernel write; every prefix leaves the old or
+   the new records. *)
+Theorem C17_flat_remove_old_or_new :
+  forall (st : flat) id k, ids_unique (fl_recs st) = true ->
+  let st' := fapply2 (firstn k (remove_effects st id)) st in
+  fl_recs st' = fl_recs st \/ fl_recs st' = removed_recs st id.
+Proof. exact flat_remove_old_or_new. Qed.
+Print Assumptions C17_flat_remove_old_or_new.
+
+(* FlatfileMapping.set(id, s), in place.  Full statement:
+     forall st id s k, ids_unique (fl_recs st) = true ->
+       let st' := fapply2 (firstn k (set_effects st id s)) st in
+       fl_recs st' = fl_recs st \/ fl_recs st' = set_recs st id s.
+   The pinned code violates it (finding C17.F49): the old line is dashed out
+   before the new one is appended, and a death in between LOSES the record.
+   Proved: it holds when the id is not in the file (set is then a pure append);
+   it fails on a witness with the id present; and in general the only third
+   outcome is "the record is gone". *)
+Theorem C17_flat_set_on_domain :
+  forall (st : flat) id s k, count_id id (fl_recs st) = 0%nat ->
+  let st' := fapply2 (firstn k (set_effects st id s)) st in
+  fl_recs st' = fl_recs st \/ fl_recs st' = set_recs st id s.
+Proof. exact flat_set_on_domain. Qed.
+Print Assumptions C17_flat_set_on_domain.
+
+Theorem C17_flat_set_refuted :
+  exists (st : flat) id s k,
+  ids_unique (fl_recs st) = true /\ count_id id (fl_recs st) <> 0%nat /\
+  let st' := fapply2 (firstn k (set_effects st id s)) st in
+  ~ (fl_recs st' = fl_recs st \/ fl_recs st' = set_recs st id s).
+Proof. exact C17_flat_set_refuted_l. Qed.
+Print Assumptions C17_flat_set_refuted.
+
+Theorem C17_flat_set_old_lost_or_new :
+  forall (st : flat) id s k, ids_unique (fl_recs st) = true ->
+  let st' := fapply2 (firstn k (set_effects st id s)) st in
+  fl_recs st' = fl_recs st \/ fl_recs st' = without id (fl_recs st) \/ fl_recs st' = set_recs st id s.
+Proof. exact flat_set_old_lost_or_new. Qed.
+Print Assumptions C17_flat_set_old_lost_or_new.
